@@ -447,7 +447,31 @@ def gen_RegLayouts():
         rel = os.path.relpath(path, DATA)
         content = {"kind": kind, "size": size, "fill": fill, "doc": doc, "binary": binary, "computed": sorted(computed),
                    "seal": [seal_start, seal_count], "regs": compact(regs)}
-        det = {"regs": details(regs, hide), "computed": sorted(computed_d)}
+        aux = []
+        if kind in ("fcb", "bca"):
+            tag_name = "tag" if kind == "fcb" else "TAG"   # FCB.parse: find_reg("tag"), BCA.parse: find_reg("TAG")
+            ti = next((i for i, r in enumerate(regs) if r.name == tag_name or tag_name in r.alias_names or r.uid == tag_name), None)
+            aux = [ti if ti is not None else len(regs)]
+        if kind == "memcfg":
+            # MemoryConfig.option_words_count: rule 0 All, 1 OptionSize (1 + field of the first visible register),
+            # 2 AcTimingMode (all words iff the field's enum reads "UserDefined"), 9 = not resolvable (the code raises)
+            rule = dget(fd, key + ["ow_counts_rule"])
+            vis = [i for i, r in enumerate(regs) if not r.hidden]
+            if rule == "All":
+                aux = [0, 0, 0, 0]
+            elif rule in ("OptionSize", "AcTimingMode") and vis:
+                r0 = regs[vis[0]]
+                fi = next((k for k, f in enumerate(r0.fdet) if f["name"] == rule or f["uid"] == rule), None)
+                if fi is None:
+                    aux = [9, vis[0], 0, 0]
+                elif rule == "OptionSize":
+                    aux = [1, vis[0], fi, 0]
+                else:
+                    ud = next((v for v, n in r0.fdet[fi]["enums"] if n == "UserDefined"), None)
+                    aux = [2, vis[0], fi, ud] if ud is not None else [9, vis[0], fi, 0]
+            else:
+                aux = [9, 0, 0, 0]
+        det = {"regs": details(regs, hide), "computed": sorted(computed_d), "aux": aux}
         ck = json.dumps([content, det], sort_keys=True)
         if ck not in index:
             index[ck] = len(layouts)
@@ -526,6 +550,10 @@ def gen_RegLayouts():
     out.append("def bcaTag : List UInt8 := [" + ", ".join(str(b) for b in bca.get("TAG", b"")) + "]")
     out.append("def fcbTag : List UInt8 := [" + ", ".join(str(b) for b in fcb.get("TAG", b"")) + "]")
     out.append(f"def xmcdTag : Nat := {xhd.get('TAG', 0)}")
+    out.append(f"/-- FCB.SIZE / FCF.SIZE / BCA.SIZE: the minimal length `parse` accepts (FCB, FCF) -/")
+    out.append(f"def fcbSize : Nat := {fcb.get('SIZE', 0)}")
+    out.append(f"def fcfSize : Nat := {fcf.get('SIZE', 0)}")
+    out.append(f"def bcaSize : Nat := {bca.get('SIZE', 0)}")
     out.append("")
     out.append("end SpsdkVerif.Generated.RegLayouts")
     meta = {"layouts": [{"file": l["file"], "kind": l["kind"], "size": l["size"], "fill": l["fill"], "doc": l["doc"], "binary": l["binary"],
@@ -551,9 +579,9 @@ def gen_RegLayouts():
             regs_txt.append("([" + ", ".join(map(str, hdr)) + "], [" + fs + "])")
         comp = "[" + ", ".join(f"({a}, {b}, {c})" for a, b, c in det["computed"]) + "]"
         txt = (f"/-- details of layout {i}: {l['file']} -/\n"
-               f"def d{i} : LayoutD := LayoutD.ofRaw {nid.get('', len(names))} {comp} [\n  " + ",\n  ".join(regs_txt) + "]\n")
+               f"def d{i} : LayoutD := LayoutD.ofRaw {nid.get('', len(names))} {comp} {det['aux']} [\n  " + ",\n  ".join(regs_txt) + "]\n")
         defs.append(txt)
-        dmeta.append({"file": l["file"], "names": names, "regs": det["regs"], "computed": det["computed"]})
+        dmeta.append({"file": l["file"], "names": names, "regs": det["regs"], "computed": det["computed"], "aux": det["aux"]})
     # shards of similar size, built in parallel by lake (one 0.7 MB file takes minutes to elaborate)
     shards = [[] for _ in range(NSHARD)]
     load = [0] * NSHARD
